@@ -55,7 +55,7 @@ func propDefs() map[string]*PropDef {
 			map[string][]string{"Insert": insertRung2}), helperFuncs(nil)...),
 		Floor: 2000,
 		Assumptions: []string{
-			"SCOPE: this check decides the 'each call returns normally' half of C01 (no index/slice/nil/cast/overflow fault, no reachable panic, every callee precondition met) for Insert, Search and Delete of the five generated tree kinds, for every tree satisfying the typing invariant WF1 - i.e. every reachable tree, PROVIDED WF1 is preserved by Insert/Delete. The functional half (results equal those of an ideal map; no key lost or resurrected) needs the path-coherence invariant (rung 2 of DESIGN.md) and is NOT decided here; collation trees are not covered yet",
+			"SCOPE: this check decides the 'each call returns normally' half of C01 (no index/slice/nil/cast/overflow fault, no reachable panic, every callee precondition met) for Insert, Search and Delete of all six tree kinds, for every tree satisfying the typing invariant WF1 - i.e. every reachable tree, PROVIDED WF1 is preserved by Insert/Delete. The functional half (results equal those of an ideal map; no key lost or resurrected) needs the path-coherence invariant (rung 2 of DESIGN.md)and is NOT decided here",
 			"WF1 preservation by Insert/Delete is proved for part of the cases only (evidence of C11 lists which); it is assumed here",
 			"ASSUMED, not proved: LinkedLive (no live node references a pooled or empty node: consequence of unique-parent ownership); acyclicity at the merge in Delete (the surviving child is not the holder of the relinked slot) and absence of uint32 overflow of the merged path length; key lengths and sizes < 2^31 / 2^62",
 			"three obligations of Insert (second branch byte differs from the first; long-path leaf key long enough; its extent) need path coherence and are generated but not claimed",
